@@ -71,8 +71,11 @@ def call_shapes(sig):
     return res
 
 
-def make_project(kind, sig, calls, host):
+def make_project(kind, sig, calls, host, wrapped=False):
     st = sig_text(sig)
+    if wrapped:
+        # header wrapped over several physical lines, one parameter per line
+        st = "\n        " + st.replace(", ", ",\n        ") + "\n"
     if kind == "function":
         xd = "def f(%s):\n    %s\n\n\n" % (st, BODY)
         callee = "f"
@@ -122,6 +125,20 @@ def changers_for(sig, shift=0):
         if not legal:
             out.append(("reorder%s+autodef" % "".join(map(str, perm)), (lambda perm=perm: cs.ArgumentReorderer(list(range(shift)) + [x + shift for x in perm], autodef="0")),
                         "autodef"))
+    # a permutation of a proper prefix leaves the remaining parameters where they are
+    for k in range(2, n):
+        for perm in itertools.permutations(range(k)):
+            if list(perm) == list(range(k)):
+                continue
+            new = [names[i] for i in perm] + names[k:]
+            seen_def, legal = False, True
+            for nm in new:
+                if defaults[nm] is not None:
+                    seen_def = True
+                elif seen_def:
+                    legal = False
+            out.append(("reorder-prefix%s" % "".join(map(str, perm)), (lambda perm=perm: cs.ArgumentReorderer(list(range(shift)) + [x + shift for x in perm])),
+                        (lambda d: d) if legal else None))
     for i in range(n + 1):
         trailing_ok = all(defaults[nm] is not None for nm in names[i:])
         out.append(("add%d:default" % i, (lambda i=i: cs.ArgumentAdder(i + shift, "n", default="7")), (lambda d: dict(d, n=7)) if trailing_ok else None))
@@ -149,10 +166,10 @@ class C06(Check):
     pid = "C06"
     level = "exploration"
     rule = ("cases = (callable kind in {function, method on a name, method on an attribute chain, classmethod, constructor}, "
-            "signature in 8 shapes (defaults, *args, **kw), host in {same module, import, from-import}, list of 1-2 call shapes "
+            "signature in 8 shapes (defaults, *args, **kw), header on one line or wrapped one parameter per line, host in {same module, import, from-import}, list of 1-2 call shapes "
             "from every valid positional/keyword/default/*seq/extra-positional/extra-keyword mix); evaluations = one "
             "ChangeSignature(...).get_changes([changers]) per (case, changer) over normalise, every permutation (with/without "
-            "autodef), add at every index (default / value / both), remove every parameter, inline every default; thorough: all "
+            "autodef) and every permutation of a proper prefix, add at every index (default / value / both), remove every parameter, inline every default; thorough: all "
             "ordered pairs of changers; each body prints its sorted locals and the output after the change must equal the "
             "recorded output transformed structurally; non-trivial = performed requests; distinct by (project, changers)")
     assumptions = ["expected outputs are the recorded outputs with the removed name dropped / the added name bound to its value or default; "
@@ -171,6 +188,8 @@ class C06(Check):
                 for host in HOSTS:
                     for c in range(len(shapes)):
                         out.append({"sig": si, "kind": kind, "host": host, "calls": [c], "pairs": tier == "thorough"})
+                        if host == "same" and kind in ("function", "method", "ctor") or tier == "thorough":
+                            out.append({"sig": si, "kind": kind, "host": host, "calls": [c], "pairs": False, "wrapped": True})
                     if kind in ("function", "ctor") or tier == "thorough":
                         for c1 in range(len(shapes)):
                             for c2 in range(len(shapes)):
@@ -187,7 +206,7 @@ class C06(Check):
         sig = SIGS[case["sig"]]
         shapes = call_shapes(sig)
         calls = [shapes[c] for c in case["calls"]]
-        files, usemod = make_project(case["kind"], sig, calls, case["host"])
+        files, usemod = make_project(case["kind"], sig, calls, case["host"], case.get("wrapped", False))
         if compiles(files):
             return {"harness": "generated project does not compile %r" % files}
         base = run_project(files)
@@ -206,6 +225,8 @@ class C06(Check):
             seqs += [[a, b] for a in single for b in single
                      if not (a[0].startswith(("add", "remove", "reorder")) and not a[0].startswith("reorder") and False)]
         feats0 = ["kind:" + case["kind"], "host:" + case["host"], "ncalls:%d" % len(calls)]
+        if case.get("wrapped"):
+            feats0.append("header:wrapped")
         if any(n == "*" for n, _ in sig):
             feats0.append("sig:has-*args")
         if any(n == "**" for n, _ in sig):
